@@ -6,6 +6,7 @@
 #include <ygm/comm.hpp>
 #include <ygm/container/disjoint_set.hpp>
 #include <cstdio>
+#include <cstdlib>
 #include <fstream>
 #include <set>
 #include <sstream>
@@ -14,6 +15,17 @@
 
 static void line(const std::string &s) { fputs(s.c_str(), stdout); fputc('\n', stdout); fflush(stdout); }
 static std::vector<std::pair<long, long>> g_cb;
+// VERIF_DSTRACE=1: every visit of the walk protocol that runs on this rank during a union epoch, with the item's entry before
+// and after the visitor (hook ds_visit of verif_hooks.hpp):   W <rank> <phase 0|1> <visitor type> <item> <rank> <parent> : args
+static bool g_trace = false;
+static int  g_me    = -1;
+static void trace_visit(int phase, const char *visitor, long item, long rank, long parent, const long *args, int nargs) {
+  if (!g_trace) return;
+  std::string s = "W " + std::to_string(g_me) + " " + std::to_string(phase) + " " + visitor + " " + std::to_string(item) + " " +
+                  std::to_string(rank) + " " + std::to_string(parent) + " :";
+  for (int i = 0; i < nargs; ++i) s += " " + std::to_string(args[i]);
+  line(s);
+}
 
 struct E { long epoch, rank, a, b, cb; };
 
@@ -36,9 +48,13 @@ int main(int argc, char **argv) {
     }
   }
   int me = world.rank();
+  g_me   = me;
+  const bool tracing = getenv("VERIF_DSTRACE") != nullptr;
+  if (tracing) ygm::verif::hooks.ds_visit = trace_visit;
   {
     ygm::container::disjoint_set<long> ds(world);
     for (long ep = 1; ep <= nepochs; ++ep) {
+      if (tracing) { line("WB " + std::to_string(ep) + " " + std::to_string(me)); g_trace = true; }
       for (auto &e : es) {
         if (e.epoch != ep) continue;
         items.insert(e.a);
@@ -48,6 +64,8 @@ int main(int argc, char **argv) {
         else ds.async_union(e.a, e.b);
       }
       world.barrier();
+      g_trace = false;
+      if (tracing) world.cf_barrier();      // no rank starts all_compress / all_find visits while another still traces
       std::string p = " " + std::to_string(ep) + " " + std::to_string(me) + " :";
       std::string s = "P" + p;
       for (auto &kv : ds.m_impl.m_local_item_parent_map)
